@@ -2608,6 +2608,7 @@ def check_C12(tier: str, seed: int) -> int:
         corr_fail, direct_fail = [], []
         worst = (0.0, None)
         classes = Counter()
+        ratio_broken = 0
         for i, (desc, data) in enumerate(inputs):
             b = res[i]
             classes[desc.split(":")[0] if desc.startswith("special") else ("field" if "@" in desc else "shape")] += 1
@@ -2622,6 +2623,12 @@ def check_C12(tier: str, seed: int) -> int:
             par = alloc_params(data)
             up = alloc_upper(par)
             worst = max(worst, (peak / limit, desc))
+            # the one hypothesis C12_bound_loaded keeps (the recorded zlib ratio), and its conclusion, on this input
+            if par["inflated"] > 1032 * par["zbytes"] + 64 * par["payloads"]:
+                ratio_broken += 1
+            elif io == 0 and up > limit:
+                corr_fail.append({"input": paths[i], "desc": desc, "diff": "alloc_upper %d exceeds the bound %d on an input that loads (C12_bound_loaded says it cannot; "
+                                                                          "parameters %s)" % (up, limit, par)})
             if peak > limit or largest > limit:
                 direct_fail.append({"what": "live heap %d B (largest request %d B) exceeds 64 MiB + 8192 B per input byte = %d B" % (peak, largest, limit),
                                     "input": desc, "input_len": n, "_data": data if len(data) < 5000000 else None})
@@ -2638,7 +2645,7 @@ def check_C12(tier: str, seed: int) -> int:
                     "keys, 65536 palette entries, 30000 external files); the hostile shapes of C04; peak live bytes and largest request measured by a counting global "
                     "allocator around AsepriteFile::read against 64 MiB + 8192 B/byte and against alloc_upper of Model/Cost.v",
             "samples": [d for d, _ in inputs[:2] + inputs[-3:]], "classes": dict(classes),
-            "worst_peak_over_limit": round(worst[0], 4), "worst_input": worst[1],
+            "worst_peak_over_limit": round(worst[0], 4), "worst_input": worst[1], "inputs_beyond_the_recorded_zlib_ratio": ratio_broken,
             "correspondence_disagreements": len(corr_fail), "direct_failures": len(direct_fail)})
         v.assumptions = ["the allocator, Vec/HashMap/BTreeMap growth and struct layout are modelled by the cost function alloc_upper, validated by this measurement, not derived from the code",
                          "inflate expands by at most 1032:1 (+64 bytes per payload)"]
